@@ -40,7 +40,7 @@ def analyse(P):
     if rm is not None:
         eng.mod_summaries[REMOVE_SQ] = (0, MG + "castle_rights::CastleRights", rm)
     leaves = eng.region(KEY, 0, {sl[0]})
-    slf, mv, out = ("obj", ("param", 0, "self")), ("param", 1, "mv"), ("param", 2, "output")
+    slf, mv, out = ("obj", ("param", 0, "self")), ("param", 1, "a1"), ("param", 2, "a2")
     piece_adt = P.find_adt("piece::Piece", "chess_bitboard")
     pd = {d: n for n, d in P.enum_variants(piece_adt)}
     src_piece = None
